@@ -13,15 +13,15 @@ EXTENDS Integers, Sequences, FiniteSets, TLC, Json
 Trace == ndJsonDeserialize("trace.ndjson")
 MaxTs == 2147483647
 Phys(ts) == ts \div 1000
-VARIABLES pos, tx, status, maxTso, idOf, lockTtl
-mvars == <<pos, tx, status, maxTso, idOf, lockTtl>>
+VARIABLES pos, tx, status, maxTso, idOf, lockTtl, asyn
+mvars == <<pos, tx, status, maxTso, idOf, lockTtl, asyn>>
 Ev == Trace[pos]
 SetOf(q) == {q[i] : i \in 1..Len(q)}
 Ext(f, k, v) == [x \in DOMAIN f \cup {k} |-> IF x = k THEN v ELSE f[x]]
 Get(f, k, d) == IF k \in DOMAIN f THEN f[k] ELSE d
 NewTx == [okKeys |-> {}, seenKeys |-> {}, cneKeys |-> {}, ops |-> <<>>, primaries |-> {}, primaryOK |-> FALSE, primaryMaybe |-> FALSE,
           commits |-> {}, mincs |-> {}, advise |-> 0, hbAfterEnd |-> 0, ended |-> FALSE, buffer |-> <<>>, hasBuffer |-> FALSE, bufPess |-> FALSE, bufAlevel |-> "off",
-          tsoAtCommit |-> 0, async |-> FALSE, onepcSets |-> {}, otherSets |-> {}, rolledBackSent |-> FALSE]
+          tsoAtCommit |-> 0, async |-> FALSE, onepcSets |-> {}, otherSets |-> {}, rolledBackSent |-> FALSE, asyncLocked |-> {}]
 T(s) == Get(tx, s, NewTx)
 Bad(rule, detail) == PrintT(<<"MISMATCH", pos, rule, detail>>)
 Check(cond, rule, detail) == IF cond THEN TRUE ELSE Bad(rule, detail)
@@ -51,7 +51,7 @@ ContentOK(t, m) ==
        /\ m.assert = ExpAssert(b, t.bufAlevel)
        /\ m.act = ExpAct(b, t.bufPess)
 
-Init == pos = 1 /\ tx = <<>> /\ status = <<>> /\ maxTso = 0 /\ idOf = <<>> /\ lockTtl = <<>>
+Init == pos = 1 /\ tx = <<>> /\ status = <<>> /\ maxTso = 0 /\ idOf = <<>> /\ lockTtl = <<>> /\ asyn = <<>>
 \* statuses the store reports in key errors are also remembered (lock ttl advertised for a transaction)
 TtlsIn(e) == IF e.executed /\ e.resp.kind = "ok" /\ "errs" \in DOMAIN e.resp
              THEN {<<e.resp.errs[i].ets, e.resp.errs[i].lttl>> : i \in {j \in 1..Len(e.resp.errs) : e.resp.errs[j].err = "locked"}}
@@ -68,6 +68,8 @@ OnPrewrite(e) ==
                       !.okKeys = IF RespOK(e) THEN @ \cup (ks \ cne) ELSE @, !.ops = @ \o r.muts,
                       !.mincs = IF RespOK(e) /\ e.resp.minc > 0 THEN @ \cup {e.resp.minc} ELSE @,
                       !.async = @ \/ r.async, !.onepcSets = IF r.onepc THEN @ \cup {ks} ELSE @,
+                      \* keys the store did lock as async-commit locks - whether or not the client learned it
+                      !.asyncLocked = IF r.async /\ RespOK(e) /\ e.resp.minc > 0 THEN @ \cup (ks \ cne) ELSE @,
                       !.otherSets = IF ~r.onepc THEN @ \cup {ks} ELSE @]
   IN /\ tx' = Ext(tx, s, t2)
      /\ Check(Cardinality(t2.primaries) = 1, "prewrites of one transaction name different primaries", <<s, t2.primaries>>)
@@ -102,10 +104,15 @@ OnCommit(e) ==
      /\ Check(\A m \in t.mincs : r.commit >= m, "commit ts below a min-commit-ts returned by a prewrite", <<s, r.commit, t.mincs>>)
      /\ Check(t.tsoAtCommit = 0 \/ r.commit > t.tsoAtCommit, "commit ts does not exceed the timestamps issued before Commit was called", <<s, r.commit, t.tsoAtCommit>>)
 
+\* the keys a commit has to lock: every buffered mutation but the non-locking existence checks
+LockBufKeys(t) == {k \in MutBufKeys(t) : ExpOp(BufEntry(t.buffer, k), t.bufPess) # "CheckNotExists"}
 OnRollback(e) ==
   LET s == e.req.start  t == T(s)
   IN /\ tx' = Ext(tx, s, [t EXCEPT !.rolledBackSent = TRUE])
      /\ Check(~t.primaryMaybe, "a rollback is sent although the primary commit may have taken effect", s)
+     \* async commit has no primary commit: the transaction is committed as soon as every key carries its async-commit lock
+     /\ Check(~(t.async /\ t.hasBuffer /\ LockBufKeys(t) # {} /\ LockBufKeys(t) \subseteq t.asyncLocked),
+              "a rollback is sent although every key of the async-commit transaction is locked: it may be committed", <<s, t.asyncLocked>>)
 
 \* what the store said about transaction s
 OnCheckTxnStatus(e) ==
@@ -124,11 +131,30 @@ OnCheckSecondary(e) ==
       st == IF RespOK(e) /\ Delivered(e) THEN (IF e.resp.commit > 0 THEN {e.resp.commit} ELSE {}) ELSE {}
   IN status' = Ext(status, s, Get(status, s, {}) \cup st)
 
-ResolveAllowed(s, c) == c \in Get(status, s, {}) \/ (c > 0 /\ c \in T(s).commits /\ T(s).primaryOK)
+\* async commit: what a resolver learns about transaction s from the primary lock (CheckTxnStatus) and from CheckSecondaryLocks -
+\* the min-commit-ts of every lock it saw, and whether a secondary was found neither locked nor committed
+NoAsync == [mincs |-> {}, missing |-> FALSE]
+A(s) == Get(asyn, s, NoAsync)
+MaxOf(S) == CHOOSE x \in S : \A y \in S : y <= x
+NoteAsync(e) ==
+  IF ~(e.executed /\ e.resp.kind = "ok" /\ Delivered(e)) THEN asyn
+  ELSE IF e.cmd = "CheckTxnStatus" /\ "lasync" \in DOMAIN e.resp /\ e.resp.lasync
+       THEN Ext(asyn, e.req.lts, [A(e.req.lts) EXCEPT !.mincs = @ \cup {e.resp.lminc}])
+  ELSE IF e.cmd = "CheckSecondaryLocks"
+       THEN Ext(asyn, e.req.start, [mincs |-> A(e.req.start).mincs \cup {e.resp.locks[i].minc : i \in 1..Len(e.resp.locks)},
+                                    missing |-> A(e.req.start).missing \/ (e.resp.commit = 0 /\ Len(e.resp.locks) < Len(e.req.keys))])
+  ELSE asyn
+\* a lock of s may be resolved with: an outcome the store reported for s; the committer's own commit ts once its primary commit
+\* succeeded; for an async-commit transaction "rolled back" once a secondary was found missing, or - every secondary seen locked -
+\* the largest min-commit-ts among the locks seen (primary included)
+ResolveAllowed(s, c) == \/ c \in Get(status, s, {})
+                        \/ (c > 0 /\ c \in T(s).commits /\ T(s).primaryOK)
+                        \/ (c = 0 /\ A(s).missing)
+                        \/ (c > 0 /\ ~A(s).missing /\ A(s).mincs # {} /\ c = MaxOf(A(s).mincs))
 OnResolve(e) ==
   LET r == e.req
       pairs == (IF r.start # 0 THEN {<<r.start, r.commit>>} ELSE {}) \cup {<<r.infos[i].start, r.infos[i].commit>> : i \in 1..Len(r.infos)}
-  IN \A p \in pairs : Check(ResolveAllowed(p[1], p[2]), "a lock is resolved with an outcome / commit ts the store did not report for its transaction", <<p, Get(status, p[1], {})>>)
+  IN \A p \in pairs : Check(ResolveAllowed(p[1], p[2]), "a lock is resolved with an outcome / commit ts the store did not report for its transaction", <<p, Get(status, p[1], {}), A(p[1])>>)
 
 OnHeartBeat(e) ==
   LET r == e.req  s == r.start  t == T(s)
@@ -141,18 +167,18 @@ OnHeartBeat(e) ==
 Next ==
   /\ pos <= Len(Trace) /\ pos' = pos + 1
   /\ LET e == Ev IN
-     CASE e.ev = "reset" -> tx' = <<>> /\ status' = <<>> /\ maxTso' = 0 /\ idOf' = <<>> /\ lockTtl' = <<>>
-       [] e.ev = "tso" -> maxTso' = (IF e.ts > maxTso THEN e.ts ELSE maxTso) /\ UNCHANGED <<tx, status, idOf, lockTtl>>
+     CASE e.ev = "reset" -> tx' = <<>> /\ status' = <<>> /\ maxTso' = 0 /\ idOf' = <<>> /\ lockTtl' = <<>> /\ asyn' = <<>>
+       [] e.ev = "tso" -> maxTso' = (IF e.ts > maxTso THEN e.ts ELSE maxTso) /\ UNCHANGED <<tx, status, idOf, lockTtl, asyn>>
        [] e.ev = "api_ret" /\ e.c = "begin" /\ e.class = "nil" ->
-            idOf' = Ext(idOf, e.txn, e.start) /\ UNCHANGED <<tx, status, maxTso, lockTtl>>
+            idOf' = Ext(idOf, e.txn, e.start) /\ UNCHANGED <<tx, status, maxTso, lockTtl, asyn>>
        [] e.ev = "commit_buffer" /\ e.txn \in DOMAIN idOf ->
             /\ tx' = Ext(tx, idOf[e.txn], [T(idOf[e.txn]) EXCEPT !.buffer = e.buffer, !.hasBuffer = TRUE, !.bufPess = e.pess, !.bufAlevel = e.alevel, !.tsoAtCommit = maxTso])
-            /\ UNCHANGED <<status, maxTso, idOf, lockTtl>>
+            /\ UNCHANGED <<status, maxTso, idOf, lockTtl, asyn>>
        [] e.ev = "api_ret" /\ e.c \in {"commit", "rollback"} /\ e.txn \in DOMAIN idOf ->
             /\ tx' = Ext(tx, idOf[e.txn], [T(idOf[e.txn]) EXCEPT !.ended = TRUE])
-            /\ UNCHANGED <<status, maxTso, idOf, lockTtl>>
+            /\ UNCHANGED <<status, maxTso, idOf, lockTtl, asyn>>
        [] e.ev = "rpc" ->
-            /\ lockTtl' = NoteTtls(e)
+            /\ lockTtl' = NoteTtls(e) /\ asyn' = NoteAsync(e)
             /\ CASE e.cmd = "Prewrite" -> OnPrewrite(e) /\ UNCHANGED <<status, maxTso, idOf>>
                  [] e.cmd = "Commit" -> OnCommit(e) /\ UNCHANGED <<status, maxTso, idOf>>
                  [] e.cmd = "BatchRollback" -> OnRollback(e) /\ UNCHANGED <<status, maxTso, idOf>>
@@ -161,7 +187,7 @@ Next ==
                  [] e.cmd = "ResolveLock" -> OnResolve(e) /\ UNCHANGED <<tx, status, maxTso, idOf>>
                  [] e.cmd = "TxnHeartBeat" -> OnHeartBeat(e) /\ UNCHANGED <<status, maxTso, idOf>>
                  [] OTHER -> UNCHANGED <<tx, status, maxTso, idOf>>
-       [] OTHER -> UNCHANGED <<tx, status, maxTso, idOf, lockTtl>>
+       [] OTHER -> UNCHANGED <<tx, status, maxTso, idOf, lockTtl, asyn>>
 Spec == Init /\ [][Next]_mvars
 Done == TLCGet("stats").diameter - 1 = Len(Trace) \/ PrintT(<<"INCOMPLETE", TLCGet("stats").diameter>>)
 =============================================================================
